@@ -18,7 +18,7 @@ func init() {
 			" Every Evaluator is built by the one constructor, which itself installs the runtime and program functions (a selector's evaluator knows what the program's does); the decode loop ends on io.EOF alone; GetRootJson guards the nil root." +
 			" Every successfully opened path and every successfully evaluated selector contributes an input / a root on every path (no way round the append)." +
 			" What the constructor installs is recognised by effect (builtin names, the program's functions, the rule lists), each on every path and in that order; the stdin input is built only when no file was named." +
-			" After a successful Decode the next one is reached only through the loop over the selected roots.",
+			" After a successful Decode the next one is reached only through the loop over the selected roots. The diagnostic printer writes to stderr on every path, for every error value.",
 		notDecided: "the README's `-r E` ≡ `BEGINFILE { $ = E }` equivalence as such (a relation between two evaluator runs); stdin-vs-file equivalence beyond `the same reader interface is passed through`.",
 	})
 }
@@ -154,6 +154,13 @@ func cliExitDiscipline(c *Ctx, rule string) {
 		}
 		// early exits before any work (-version, debug flags) have no dominating source
 		c.check(len(missing) == 0, rule, "success-exit "+describeExit(p, r), p.InstrPos(r), "status 0 only after every preceding step succeeded", "`return 0` is reachable although {"+strings.Join(missing, ", ")+"} may have failed")
+	}
+	// the diagnostic printer writes something for every error value, on every path
+	if pe := p.CliFunc("printError"); pe != nil {
+		at := silentReturn(p, pe, 0)
+		c.check(at == "", rule, "diagnostic-on-every-path", p.Pos(pe.Pos()), "every path through printError (and the helpers it delegates to) writes to stderr", "printError can return without having written anything to stderr ("+at+"): for such an error the tool exits non-zero with no diagnostic")
+	} else {
+		c.undecided(rule, "diagnostic-on-every-path", "", "anchor cli.printError not found")
 	}
 	// main
 	if p.Main != nil {
@@ -711,4 +718,65 @@ func errValOf(call ssa.CallInstruction) ssa.Value {
 	}
 	v, _ := errValueOf(cv)
 	return v
+}
+
+// silentReturn: the position of a return of fn that can be reached from its entry without passing a
+// write to os.Stderr (fmt.Fprint* with os.Stderr, or a module function that itself writes on every
+// path); "" when every path writes.
+func silentReturn(p *Program, fn *ssa.Function, depth int) string {
+	if len(fn.Blocks) == 0 || depth > 4 {
+		return "body of " + shortName(fn) + " not available"
+	}
+	writes := func(in ssa.Instruction) bool {
+		call, ok := in.(ssa.CallInstruction)
+		if !ok {
+			return false
+		}
+		if _, isDefer := in.(*ssa.Defer); isDefer {
+			return false
+		}
+		if _, isGo := in.(*ssa.Go); isGo {
+			return false
+		}
+		f := call.Common().StaticCallee()
+		if f == nil {
+			return false
+		}
+		if strings.HasPrefix(f.String(), "fmt.Fp") && len(call.Common().Args) > 0 {
+			return p.Render(call.Common().Args[0]) == "Stderr"
+		}
+		if p.InModule(f) && f != fn {
+			return silentReturn(p, f, depth+1) == ""
+		}
+		return false
+	}
+	// blocks whose end is reachable without a write
+	seen := map[*ssa.BasicBlock]bool{}
+	work := []*ssa.BasicBlock{fn.Blocks[0]}
+	for len(work) > 0 {
+		b := work[len(work)-1]
+		work = work[:len(work)-1]
+		if seen[b] {
+			continue
+		}
+		seen[b] = true
+		wrote := false
+		for _, in := range b.Instrs {
+			if writes(in) {
+				wrote = true
+				break
+			}
+		}
+		if wrote {
+			continue
+		}
+		if r, ok := b.Instrs[len(b.Instrs)-1].(*ssa.Return); ok {
+			if fn.Recover != nil && b == fn.Recover {
+				continue
+			}
+			return p.InstrPos(r)
+		}
+		work = append(work, b.Succs...)
+	}
+	return ""
 }
